@@ -291,6 +291,9 @@ func VerifIntLiteral() {
 	}
 	s := string(b)
 	leadingZero := !hex && nd > 1 && s[0] == '0'
+	if verifnd.Param("LZ", 1) == 0 {
+		verifnd.Assume(!leadingZero) // position-only use of this harness (C17): the value question is C07's
+	}
 	sign := verifnd.Int(0, 2) // 0 none, 1 '+', 2 '-'
 	src := s
 	if sign == 1 {
